@@ -171,6 +171,15 @@ def run(R):
     # ambiguous single-word terms whose style has to be guessed from context that is exactly tied between two styles: in the
     # same file (>= 50 unambiguous identifiers, half snake, half camel; an extension without a language heuristic) and in
     # sibling files of the same extension (the same preceding word followed by identifiers, three per style)
+    # terms that also occur in the names of renamify's own scratch entries (the case-sensitivity probes: .tmpXXXXXX/test_case_a,
+    # .renamify_case_test): a probe that is alive while the tree is walked shows up as a planned rename with a random name
+    probe_terms = [("test_case", "spec_case", "src/test_case.rs"), ("case_test", "case_probe", "case_test_notes.md"),
+                   ("tmp", "scratch", "tmp_files.txt"), ("testCase", "specCase", "lib/testCase.js")]
+    for k, (s_, r_, f_) in enumerate(probe_terms[: 2 if quick else 4]):
+        ptree = [{"p": f_.split("/")[0], "k": "d", "m": 0o755}] if "/" in f_ else []
+        ptree += [{"p": f_, "k": "f", "c": (s_ + " here\n").encode(), "m": 0o644}]
+        determinism(R, ptree, s_, r_, stats, fails, quick, 2000 + k, reps=2 if quick else 4)
+        stats["probe_name_scenarios"] = stats.get("probe_name_scenarios", 0) + 1
     for k, (tree, search, replace) in enumerate(tie_scenarios(g, 2 if quick else 12)):
         determinism(R, tree, search, replace, stats, fails, quick, 1000 + k, reps=4 if quick else 8)
         stats["tie_scenarios"] = stats.get("tie_scenarios", 0) + 1
